@@ -622,6 +622,26 @@ rule("D6.split_terminator_lit",
      "shim_split_terminator ( $recv , $l )",
      "str::split_terminator(&str literal) collected into a Vec<&str>")
 
+rule("D8.write_lit",
+     "write ! ( f , $l:str )",
+     "shim_fmt_str ( f , $l )",
+     "write!(f, \"literal\"): Formatter::write_str of the literal")
+
+rule("D8.writeln_kv_s",
+     "writeln ! ( f , \"{}={}\" , key , s )",
+     "fmt_kv_str ( f , key , s )",
+     "writeln!(f, \"{}={}\", key, s): Display::fmt(key), \"=\", the string, \"\\n\" in sequence (helper verified in the unit)")
+
+rule("D8.writeln_kv_i",
+     "writeln ! ( f , \"{}={}\" , key , i )",
+     "fmt_kv_i64 ( f , key , i )",
+     "writeln!(f, \"{}={}\", key, i) for an i64 value")
+
+rule("D15.sorted_entries",
+     "let mut bmap = BTreeMap :: new ( ) ; for ( key , val ) in & self . entries { bmap . insert ( key , val ) ; } for ( key , val ) in bmap {",
+     "for ( key , val ) in shim_sorted_entries ( & self . entries ) {",
+     "copying a HashMap's (&K,&V) pairs into a BTreeMap and iterating it by value: all pairs, each once, in increasing key order")
+
 rule("D6.take_digits",
      "$recv . chars ( ) . take_while ( char :: is_ascii_digit ) . collect ( )",
      "shim_take_ascii_digits ( $recv )",
